@@ -452,6 +452,38 @@ fn gen_cases(tier: Tier) -> Vec<Case> {
             }
         }
     }
+    // ---------------- second review round
+    // a flat chain of clip paths each clipped by the previous one: reference length is not nesting depth
+    for &(l, via) in &[(2u32, true), (3, false), (100, false)] {
+        for n in [l - 1, l, l + 1, 3 * l] {
+            let mut body = String::from("<clipPath id=\"c0\"><rect wh=\"50\"/></clipPath>");
+            for i in 1..=n {
+                body.push_str(&format!("<clipPath id=\"c{i}\" clip-path=\"url(#c{})\"><rect wh=\"{}\"/></clipPath>", i - 1, 50 + i));
+            }
+            body.push_str(&format!("<rect wh=\"60\" clip-path=\"url(#c{n})\"/>"));
+            let (doc, cfg) = with_limit("depth", l.max(2), via, &body);
+            v.push(Case { family: "depth/flat-clip-chain".into(), doc, cfg, expect: Some(n as usize + 2), unasserted: false, param: n as i64, limit: l as i64 });
+        }
+    }
+    // the _ / __ comment attributes are not variables
+    for via in [false, true] {
+        for holder in ["<g _=\"@\"><rect wh=\"1\"/></g>", "<g __=\"@\"><rect wh=\"1\"/></g>", "<specs><rect id=\"t\" wh=\"1\"/></specs><reuse href=\"#t\" _=\"@\"/>", "<rect wh=\"1\" _=\"@\"/>", "<var _=\"@\" a=\"1\"/><rect wh=\"1\"/>"] {
+            let (doc, cfg) = with_limit("var", 4, via, &holder.replace('@', "a comment longer than four characters"));
+            v.push(Case { family: "var/comment-attribute".into(), doc, cfg, expect: Some(1), unasserted: false, param: 37, limit: 4 });
+        }
+    }
+    // an element at the depth boundary is counted whatever it is: a passed-through <svg xmlns=..> too
+    for &l in &[1u32, 2, 3] {
+        for (form, el) in [("empty", "<svg xmlns=\"http://www.w3.org/2000/svg\"/>"), ("end-tag", "<svg xmlns=\"http://www.w3.org/2000/svg\"></svg>"), ("content", "<svg xmlns=\"http://www.w3.org/2000/svg\"><rect width=\"1\" height=\"1\"/></svg>")] {
+            for k in [l - 1, l, l + 1] {
+                // k groups around the element: its own depth is k + 1
+                let body = format!("{}{el}{}", "<g>".repeat(k as usize), "</g>".repeat(k as usize));
+                let cfg = Cfg { depth_limit: l, ..Cfg::plain() };
+                let rects = if form == "content" { 1 } else { 0 };
+                v.push(Case { family: format!("depth/passed-through-svg-{form}"), doc: body, cfg, expect: if k + 1 > l { None } else { Some(rects) }, unasserted: false, param: (k + 1) as i64, limit: l as i64 });
+            }
+        }
+    }
     v
 }
 
